@@ -37,6 +37,21 @@ CHECKS = {
         "note": "trusted: the frame encoder mc/model/quicframes.py; byte strings longer than the bound are not covered",
         "technique": "exhaustive enumeration of frame sequences and of all short byte strings against an encoder model",
     },
+    "C01": {
+        "category": "model_checking",
+        "text": "Depth-bounded exhaustive operation sequences on the real Session/Decryptor/OutputBuilder through run(): "
+                "every table suite x valid version (x encrypt-then-MAC, x TLS 1.3 handshake secrets present/absent) with a "
+                "history touching every stateful mechanism; per cipher-state class every application-record history up to "
+                "depth 3 (thorough 4) over {client,server} x {0,1,block boundary,300}; handshake shapes within 2 deviations "
+                "of the default; segmentations x IPv4/IPv6. Oracle: the reassembled output streams equal what the modelled "
+                "peer sent. The cipher state per direction is a function of the whole history, so only exhaustive "
+                "histories (not single records) decide it.",
+        "design_ref": "DESIGN.md section 5, C01",
+        "note": "trusted: the peer model mc/model/tls.py + kdf.py (anchored on real captures / live OpenSSL by mc/validate.py), "
+                "our pcapng reader; data bytes come from VERIF_SEED (not enumerated); histories longer than the bound and "
+                "handshake messages fragmented across records are not covered",
+        "technique": "bounded exhaustive enumeration of record histories / suites / handshake shapes against a reference peer model",
+    },
 }
 
 NOT_YET = "check not built yet in this round (planned: bounded exhaustive exploration, see DESIGN.md section 5)"
